@@ -185,6 +185,20 @@ CHECKS = {
         "initial-state keys incl. groups of unequal size: jax.grad vs finite differences.",
    note=TRUST + "JAX AD, jax.checkpoint and the custom VJP of spsolve are trusted runtime; the reflection of each generated kernel into the "
         "expression language is not generated (the theorem is about the language, the dual run about the cable model). Partial."),
+ "C16": dict(cat="proof", ref="DESIGN.md §4 C16",
+   technique="executable Lean model of the SWC reader (bit-exact with the implementation) + independent section Spec evaluated by the Lean driver + combinatorial/interpolation theorems",
+   text="Model.Swc mirrors the reader (two-loop branch splitting, long-branch splitting, stable sort, parents, path lengths, radius "
+        "functions, compartment radii, groups) and agrees with the real swc_to_jaxley/read_swc bit for bit on seeded random well-formed "
+        "trees; Spec.Swc defines sections (maximal unbranched same-type paths) independently and the driver compares the "
+        "implementation's branches, lengths and types with it. Theorems: splitting a branch into k pieces yields k connected pieces "
+        "that glue back to the branch; build_parents returns the unique branch whose last point is this branch's first point; the "
+        "radius formula is a linear interpolation between the neighbouring traced radii (and the min_radius clip is a max); compartment "
+        "centres and lengths (total length independent of ncomp); the type groups partition the branches by SWC type (for all "
+        "types, groupName injective); the stable sort is a stable sorted permutation; Spec sections are parent/child chains.",
+   note=TRUST + "np.loadtxt and sqrt rounding are trusted; theorems about formulas are over the reals, the Float model is tied by the bit-exact "
+        "correspondence. Known findings D2 (multi-point soma listed non-contiguously), D4 (type change at the second point of a non-soma "
+        "root); fixed D1 (type of the first neurite), D3 (max_branch_len crashes). split_eq_sections (model = Spec for all well-formed "
+        "files) is not proved: it is checked per case."),
 }
 
 def main():
